@@ -14,4 +14,15 @@ META = {
         "technique": "Coq proof (induction over lists/bits) + vm_compute correspondence against the real constructors",
         "design_ref": "DESIGN.md §3 C16",
     },
+    "C08": {
+        "text": "Coq theorems for every Hamiltonian table, cutoff L, count n<L, state, bond and beta (no bounds): the exact insertion "
+                "probability times (L-n) equals beta*w times the exact removal probability, in the clipped and unclipped regime, for the "
+                "Metropolis and the heat-bath program; off-diagonal ops are returned unchanged; the count threaded through the sweep is the live one. "
+                "The two programs are tied to diagonal.rs/heatbath.rs by replaying whole sweeps of the real code on the raw RNG words (bit-exact decisions, "
+                "rand's rejection zone included) and by bisecting every accept/remove/bond-choice threshold of the real code to the exact word and comparing it with the model's probability to 2^-40.",
+        "note": "Trusted: Coq kernel + vm_compute; TapeRng; the rand 0.8.8 decoding rules in run_tape; dyadic inputs so f64 products are exact. "
+                "A model-independent oracle recomputes P_ins/P_rem from the measured thresholds alone and compares with beta*w/(L-n).",
+        "technique": "Coq proof over Q (field/lra, list induction) + raw-tape replay and threshold bisection against the real code",
+        "design_ref": "DESIGN.md §3 C08",
+    },
 }
